@@ -3,7 +3,7 @@ From BSE Require Import Model.Val Model.Wire.
 From BSE Require Import Ops.OpsC20 Ops.OpsManip.
 
 Definition all_ops : list (string -> list val -> option (res val)) :=
-  [ ops_c20; ops_manip ].
+  [ ops_c20; ops_manip; ops_pipeline ].
 
 Fixpoint dispatch_in (tabs : list (string -> list val -> option (res val))) (op : string) (args : list val) : val :=
   match tabs with
